@@ -644,7 +644,9 @@ Proof.
   { unfold get_pending.
     match goal with |- context [consume LOOPFUEL cfg (start_retry ?q TIMEOUT) w tt ?h ?fin] =>
       pose proof (call_writes_request_first cfg h fin q TIMEOUT id 399 w tt C) as K;
-      change (S 399) with LOOPFUEL in K; rewrite q_cmd_seq_of in K; exact K end. }
+      change (S 399) with LOOPFUEL in K; rewrite q_cmd_seq_of in K;
+      destruct (consume LOOPFUEL cfg (start_retry q TIMEOUT) w tt h fin) as [[l|er] w0] end; cbn [snd] in K |- *; [exact K|].
+    destruct er; cbn [snd]; try exact K. apply grows_drop_cur. exact K. }
   unfold end_of_day. destruct (get_pending cfg w) as [[pend|er] w1]; cbn [snd] in K |- *; [|exact K].
   assert (F : forall (l : list N) (acc : cres unit * world), grows (e :: w_log w) (snd acc) ->
             grows (e :: w_log w) (snd (fold_left (fun acc p => match acc with
